@@ -1296,7 +1296,7 @@ func TestVerifC10(t *testing.T) {
 		run.Inconclusive(fmt.Sprintf("C10: %d calls of this invocation did not return within %v (each is re-run alone by vcheck, which reports it if it repeats); the remaining cases from index %d on were not run", c10StallsSoFar(), c10StallLimit, run.From))
 		return
 	}
-	run.Cases(run.N(12000, 1000000), func(c *vlib.Case) {
+	run.Cases(run.N(40000, 1000000), func(c *vlib.Case) {
 		c10RunBlock(c, run, blk, str, c10GenBlock(c.R))
 	})
 
